@@ -127,6 +127,45 @@ def conformance(obj, case, key):
     return vs[:4], b
 
 
+def tweak_in_place(obj):
+    """Small IN-PLACE edits of whatever the container holds (note cells, array elements, option, binding, label).
+    Returns True if something was edited."""
+    from rv.pattern import Pattern
+    from rv.project import Project
+
+    done = False
+    mods = [m for m in obj.modules if m is not None] if isinstance(obj, Project) else [obj.module]
+    if isinstance(obj, Project):
+        for pat in obj.patterns:
+            if isinstance(pat, Pattern):
+                n = pat.data[pat.lines - 1][pat.tracks - 1]
+                n.vel = (n.vel + 1) % 130
+                n.module = (n.module + 0x101) & 0xFFFF
+                done = True
+                break
+    for m in mods:
+        for path, (lo, hi, length, kind) in deviate.ARRAYS.get(m.mtype, {}).items():
+            arr = getattr(getattr(m, path), kind)
+            if lo is None:
+                arr[1] = 0.75
+            elif path == "harmonic_types":
+                arr[1] = type(m).HarmonicType(3)
+            else:
+                arr[1] = lo if arr[1] != lo else hi
+            done = True
+        if m.mtype == "MultiCtl":
+            m.mappings.values[2].max = 12345
+            done = True
+        if m.mtype == "MetaModule" and m.user_defined_controllers:
+            m.user_defined[0].label = "relabelled"
+            done = True
+        names = list(m.controllers)
+        if names and not names[0].startswith("user_defined"):
+            m.controller_midi_maps[names[0]].message_parameter = 0x0102
+            done = True
+    return done
+
+
 def build(case):
     import rv.api as rv
 
@@ -148,7 +187,13 @@ def case_key(case):
 
 
 def run_case(case):
-    return conformance(build(case), case, case_key(case))[0]
+    second = case.get("second_save")
+    case = {k: v for k, v in case.items() if k != "second_save"}
+    obj = build(case)
+    vs = conformance(obj, case, case_key(case))[0]
+    if second and tweak_in_place(obj):
+        return conformance(obj, dict(case, second_save=True), dict(case_key(case), second_save=True))[0]
+    return vs
 
 
 def _task(t):
@@ -178,6 +223,14 @@ def _task(t):
         r["digests"].add(C.h8(b))
         if len(r["violations"]) < 40:
             r["violations"] += vs
+        if kind == "cases" and tweak_in_place(obj):
+            # the object has been written once; after an in-place edit the NEXT file must describe the edited object
+            vs2, b2 = conformance(obj, dict(case, second_save=True), dict(case_key(case), second_save=True))
+            r["evals"] += 1
+            C.count(r, "second_saves")
+            r["digests"].add(C.h8(b2))
+            if len(r["violations"]) < 40:
+                r["violations"] += vs2
     if cases:
         r["sample"] = cases[-1]
     return r
@@ -202,6 +255,9 @@ def run(ctx):
     prs = [(a, b) for a in tk for b in tk] if ctx.thorough else [(tk[i], tk[(i + 1 + ctx.seed) % len(tk)]) for i in range(len(tk))]
     for a, b in prs:
         cases.append({"kind": "module", "mods": [[a, []], [b, []]], "links": [[1, 2], [2, 1], [1, 0], [2, 0]]})
+    for k in tk:
+        cases.append({"kind": "module", "mods": [[k, []]]})
+        cases.append({"kind": "synth", "type": k, "devs": []})
     tasks = [("cases", cases[i:i + 40]) for i in range(0, len(cases), 40)]
     for k in tk:
         n = len(deviate.module_devs(k, ctx.seed)) + 1
@@ -225,6 +281,6 @@ def run(ctx):
         "rule": "every object of the C01/C02 (and C15/C16) enumerations written by rv and decoded by the independent decoder; "
                 "distinct_nontrivial = distinct written files other than the default one",
         "exhaustive": True, "k": 2 if ctx.thorough else 1,
-        "rejected_by_api": agg.counters.get("rejected", 0),
+        "rejected_by_api": agg.counters.get("rejected", 0), "second_saves_after_in_place_edit": agg.counters.get("second_saves", 0),
         "samples": agg.samples,
     }
